@@ -23,6 +23,7 @@ type EngineInfo struct {
 	ReadSet    map[*types.Var]bool
 	FullInval  map[*types.Func]bool // cache methods that purge everything
 	PodInval   map[*types.Func]bool // cache methods that take a pod (pod-granular bookkeeping)
+	wrapInval  map[*types.Func]bool // memo of alwaysInvalidates
 }
 
 func ResolveEngine(p *core.Program, r *core.Report) *EngineInfo {
@@ -216,6 +217,12 @@ func (ei *EngineInfo) findWrites(fd *core.FuncDecl) []stateWrite {
 						if call, ok := ast.Unparen(x.Rhs[i]).(*ast.CallExpr); ok && core.IsBuiltinCall(info, call, "append") {
 							kind = "append"
 						}
+						// m[k] = make(map...): an empty inner container; readers iterate it like an absent one
+						if call, ok := ast.Unparen(x.Rhs[i]).(*ast.CallExpr); ok && kind == "map-insert" && core.IsBuiltinCall(info, call, "make") && len(call.Args) == 1 {
+							if _, isMap := info.TypeOf(call).Underlying().(*types.Map); isMap {
+								continue
+							}
+						}
 					}
 					out = append(out, stateWrite{Node: x, Field: fld, Kind: kind})
 				}
@@ -276,11 +283,59 @@ func (ei *EngineInfo) presenceGuarded(fd *core.FuncDecl, w stateWrite, isInval f
 	return found
 }
 
+// alwaysInvalidates: a module function every return of which is preceded by a full invalidation of the cache
+// (wrappers such as deleteAdminNetworkPolicy, used for roll-back).
+func (ei *EngineInfo) alwaysInvalidates(fn *types.Func) bool {
+	if ei.wrapInval == nil {
+		ei.wrapInval = map[*types.Func]bool{}
+	}
+	if v, ok := ei.wrapInval[fn]; ok {
+		return v
+	}
+	ei.wrapInval[fn] = false
+	fd := ei.P.ByObj[fn]
+	if fd == nil {
+		return false
+	}
+	info := fd.Pkg.TypesInfo
+	w := facts.NewWalker(info)
+	all := true
+	exits := 0
+	w.Transfer = func(st int, n ast.Node, f facts.Formula) int {
+		if c, ok := n.(*ast.CallExpr); ok {
+			if cal := core.Callee(info, c); cal != nil && (ei.FullInval[cal] || (cal != fn && ei.alwaysInvalidates(cal))) {
+				return 1
+			}
+		}
+		if as, ok := n.(*ast.AssignStmt); ok {
+			for _, l := range as.Lhs {
+				if f2 := core.FieldOf(info, l); f2 == ei.CacheField {
+					return 1
+				}
+			}
+		}
+		return st
+	}
+	w.OnExit = func(st int, ret *ast.ReturnStmt, f facts.Formula) {
+		if w.FuncLitDepth > 0 {
+			return
+		}
+		exits++
+		if st != 1 {
+			all = false
+		}
+	}
+	w.WalkBody(fd.Decl.Body, nil)
+	ei.wrapInval[fn] = all && exits > 0
+	return ei.wrapInval[fn]
+}
+
 // ---------------------------------------------------------------- E4a
 
 // Frozen exceptions of E4a: construct -> reason.
 var e4aExceptions = map[string]string{
 	"netpol/eval.(*PolicyEngine).AddPodByNameAndNamespace writes podsMap": "the inserted ingress-controller pod is a fake pod without owner; keyPerConnection yields no key for a peer without owner, so nothing about it is ever cached; the function is on the list path only",
+	"netpol/eval.(*PolicyEngine).insertNetworkPolicy writes netpolsMap, exit `return scanErr`": "infeasible exit: the exposure pre-scan evaluates the rule ports with dst == nil, and with a nil dst neither ruleConnections nor getPortsRange has an error return (rule E4a-scan checks exactly that); no input reaches this return, so no failing history can be shown",
 }
 
 // CacheInvalidation is rule E4a: every write to engine state that
@@ -341,7 +396,7 @@ func (ei *EngineInfo) checkWriter(fd *core.FuncDecl, fld *types.Var, writes []st
 		if fn == nil {
 			return false
 		}
-		if ei.FullInval[fn] {
+		if ei.FullInval[fn] || ei.alwaysInvalidates(fn) {
 			return true
 		}
 		return allowPodGranular && ei.PodInval[fn]
@@ -357,7 +412,8 @@ func (ei *EngineInfo) checkWriter(fd *core.FuncDecl, fld *types.Var, writes []st
 		}
 	}
 	w := facts.NewWalker(info)
-	bad := ""
+	type badExit struct{ desc, pos string }
+	var bads []badExit
 	w.Transfer = func(st int, n ast.Node, f facts.Formula) int {
 		if sw, ok := wnodes[n]; ok {
 			if guarded[n] && st&stI == 0 {
@@ -382,17 +438,23 @@ func (ei *EngineInfo) checkWriter(fd *core.FuncDecl, fld *types.Var, writes []st
 		return st
 	}
 	w.OnExit = func(st int, ret *ast.ReturnStmt, f facts.Formula) {
+		if w.FuncLitDepth > 0 {
+			return
+		}
 		if st&stW != 0 && st&stI == 0 {
-			if IsErrorReturn(ei.P, w, fd.Obj, ret, f) {
-				return
-			}
+			// error returns count too: a call that changed the state and then failed leaves the changed state behind
 			pos := fd.Decl.End()
+			desc := "end of function"
 			if ret != nil {
 				pos = ret.Pos()
+				desc = "return " + exprList(ret.Results)
 			}
-			if bad == "" {
-				bad = ei.P.Pos(pos)
+			for _, b := range bads {
+				if b.desc == desc {
+					return
+				}
 			}
+			bads = append(bads, badExit{desc, ei.P.Pos(pos)})
 		}
 	}
 	w.WalkBody(fd.Decl.Body, nil)
@@ -401,18 +463,114 @@ func (ei *EngineInfo) checkWriter(fd *core.FuncDecl, fld *types.Var, writes []st
 		kinds = append(kinds, sw.Kind+"@"+ei.P.Pos(sw.Node.Pos()))
 	}
 	pos := ei.P.Pos(writes[0].Node.Pos())
-	if bad == "" {
-		r.OK("E4a", construct, pos, "every path from the write ("+strings.Join(kinds, ", ")+") to a normal return passes a cache invalidation")
-		return
-	}
-	if why, ok := e4aExceptions[construct]; ok {
+	if why, ok := e4aExceptions[construct]; ok && len(bads) > 0 {
 		r.Add("E4a", construct, pos, core.Excepted, why)
 		return
 	}
-	r.Bad("E4a", construct, pos,
-		fmt.Sprintf("state read by CheckIfAllowed (%s) is written (%s) and the normal return at %s is reached without invalidating the result cache: a result cached before this update can be served after it",
-			fld.Name(), strings.Join(kinds, ", "), bad),
-		"entry: "+fd.Key(), "write: "+strings.Join(kinds, ", "), "normal return without invalidation: "+bad)
+	nBad := 0
+	for _, b := range bads {
+		c := construct + ", exit `" + b.desc + "`"
+		if why, ok := e4aExceptions[c]; ok {
+			r.Add("E4a", c, b.pos, core.Excepted, why)
+			continue
+		}
+		nBad++
+		r.Bad("E4a", c, b.pos,
+			fmt.Sprintf("state read by CheckIfAllowed (%s) is written (%s) and the function returns at %s (`%s`) without invalidating the result cache: a result cached before this update can be served after it (an error return counts: the state stays changed)",
+				fld.Name(), strings.Join(kinds, ", "), b.pos, b.desc),
+			"entry: "+fd.Key(), "write: "+strings.Join(kinds, ", "), "return without invalidation: "+b.pos)
+	}
+	if nBad == 0 {
+		r.OK("E4a", construct, pos, "every path from the write ("+strings.Join(kinds, ", ")+") to a return passes a cache invalidation")
+	}
+}
+
+func exprList(es []ast.Expr) string {
+	var out []string
+	for _, e := range es {
+		out = append(out, core.ExprStr(e))
+	}
+	return strings.Join(out, ", ")
+}
+
+// PreScanCannotFail is rule E4a-scan, the premise of the one per-exit exception of E4a: the exposure pre-scan of a
+// NetworkPolicy (GetPolicyRulesSelectorsAndUpdateExposureClusterWideConns) has no reachable error: every error
+// created in the functions it reaches is created under dst != nil, and the scan passes a nil dst.
+func PreScanCannotFail(p *core.Program, r *core.Report, rule string) {
+	scan := p.Func(core.PkgK8s, "NetworkPolicy", "GetPolicyRulesSelectorsAndUpdateExposureClusterWideConns")
+	rc := p.Func(core.PkgK8s, "NetworkPolicy", "ruleConnections")
+	if scan == nil || rc == nil {
+		r.Lost(rule, "(*NetworkPolicy).GetPolicyRulesSelectorsAndUpdateExposureClusterWideConns / ruleConnections")
+		return
+	}
+	reach := p.Reachable(scan.Obj)
+	reachRC := p.Reachable(rc.Obj)
+	// helpers whose only result is a freshly built error (netpolErr)
+	isErrCtor := func(fn *types.Func) bool {
+		sig := fn.Type().(*types.Signature)
+		return p.IsModuleFunc(fn) && sig.Results().Len() == 1 && core.IsErrorType(sig.Results().At(0).Type()) && AlwaysReturnsError(p, fn)
+	}
+	n := 0
+	for _, fd := range p.Funcs {
+		if !reach[fd.Obj] && fd.Obj != scan.Obj {
+			continue
+		}
+		info := fd.Pkg.TypesInfo
+		// (1) calls of ruleConnections on the scan path pass a nil peer
+		if !reachRC[fd.Obj] && fd.Obj != rc.Obj {
+			for _, c := range core.CallsIn(info, fd.Decl.Body, func(fn *types.Func) bool { return fn == rc.Obj }) {
+				n++
+				r.Check(len(c.Args) == 2 && core.IsNil(info, c.Args[1]), rule, fd.Key()+": the pre-scan evaluates rule ports without a destination peer", p.Pos(c.Pos()), "ruleConnections(ports, nil)", "the pre-scan passes a destination peer to ruleConnections: named-port conversion errors become reachable, and with them the return of insertNetworkPolicy that skips the cache invalidation")
+			}
+			// no error is created outside ruleConnections' subtree
+			ast.Inspect(fd.Decl.Body, func(nd ast.Node) bool {
+				c, ok := nd.(*ast.CallExpr)
+				if !ok {
+					return true
+				}
+				if fn := core.Callee(info, c); fn != nil && !reachRC[fn] && fn != rc.Obj && AlwaysReturnsError(p, fn) && !p.IsModuleFunc(fn) {
+					n++
+					r.Bad(rule, fd.Key()+": creates no error on the pre-scan path", p.Pos(c.Pos()), "an error is created on the exposure pre-scan path ("+core.ExprStr(c.Fun)+"): the return of insertNetworkPolicy that skips the cache invalidation becomes reachable")
+				}
+				return true
+			})
+			continue
+		}
+		// (2) inside ruleConnections' subtree an error is created only where a destination peer is known non-nil
+		if isErrCtor(fd.Obj) {
+			continue // an error-constructor helper: judged where it is called
+		}
+		sig := fd.Obj.Type().(*types.Signature)
+		var dst *types.Var
+		for i := 0; i < sig.Params().Len(); i++ {
+			if core.TypeIs(sig.Params().At(i).Type(), core.PkgK8s, "Peer") {
+				dst = sig.Params().At(i)
+			}
+		}
+		w := facts.NewWalker(info)
+		w.OnExpr = func(e ast.Expr, f facts.Formula) {
+			c, ok := e.(*ast.CallExpr)
+			if !ok {
+				return
+			}
+			fn := core.Callee(info, c)
+			if fn == nil || !AlwaysReturnsError(p, fn) {
+				return
+			}
+			if p.IsModuleFunc(fn) && (reachRC[fn] || fn == rc.Obj) && !isErrCtor(fn) {
+				return // propagation, judged at its own creation sites
+			}
+			n++
+			ok2 := false
+			if dst != nil {
+				ok2 = facts.Entails(f, facts.Not{X: facts.Atom("nil:" + w.PathOfVar(dst))})
+			}
+			r.Check(ok2, rule, fd.Key()+": an error is created only when a destination peer is given", p.Pos(c.Pos()), "under dst != nil", "an error can be created with a nil destination peer ("+core.ExprStr(c.Fun)+"): the exposure pre-scan can fail, so the return of insertNetworkPolicy that skips the cache invalidation is reachable")
+		}
+		w.WalkBody(fd.Decl.Body, nil)
+	}
+	r.RuleCounts[rule] = n
+	r.Floor(rule, 2)
 }
 
 // ---------------------------------------------------------------- E4b
